@@ -124,8 +124,12 @@ func normErr(s string) string {
 	case strings.Contains(s, "unknown pattern type"):
 		return "unknownPatternType"
 	case strings.HasSuffix(s, "isn't Bindings"):
-		return "isn't Bindings"
-	case strings.HasPrefix(s, "json: unsupported"):
+		// the text names the Go value; keep what distinguishes the two bad returns of the DSL
+		if strings.HasPrefix(s, "3 (int64)") {
+			return "isn't Bindings:scalar"
+		}
+		return "isn't Bindings:array"
+	case strings.HasPrefix(s, "json: unsupported type: func("):
 		return "json: unsupported"
 	}
 	if i := strings.Index(s, " at <eval>"); i >= 0 {
@@ -227,7 +231,7 @@ func nativeAction(p *gen.Prog) *core.FuncAction {
 			case "loop":
 				return fail("RuntimeError: timeout")
 			case "emitBad":
-				return fail("json: unsupported")
+				return fail("json: unsupported type: func(goja.FunctionCall) goja.Value")
 			}
 		}
 		switch p.Ret {
